@@ -74,6 +74,7 @@ fn main() {
         "c04_apply" => c04::apply(thorough),
         "c05_runtime" => c05::runtime(thorough),
         "c07_toml" => c07::toml_text(thorough),
+        "c20_twice" => c05::twice(thorough),
         "c19_writers" => c19::writers(thorough),
         "c03_env_files" => c03::env_files(thorough),
         "c10_layer_paths" => c03::layer_paths(thorough),
